@@ -18,6 +18,13 @@ pub trait Elem:
         self == other
     }
     const IS_INT: bool;
+    /// float element types: the value as f64 (exact) - `None` for the integer types
+    fn as_float(self) -> Option<f64> {
+        None
+    }
+    /// float element types: 2 * unit roundoff (2^-52 for f64, 2^-23 for f32) and the smallest positive value
+    const EPS: f64 = 0.0;
+    const TINY: f64 = 0.0;
     fn one() -> Self;
     /// `Arr2D::identity` where the element type has `From<i32>`
     fn real_ident(_n: usize) -> Option<Arr2D<Self>> {
@@ -50,6 +57,11 @@ impl Elem for f64 {
         self == other || (self.is_nan() && other.is_nan())
     }
     const IS_INT: bool = false;
+    fn as_float(self) -> Option<f64> {
+        Some(self)
+    }
+    const EPS: f64 = 2.220446049250313e-16; // 2^-52
+    const TINY: f64 = 5e-324;
     fn one() -> Self {
         1.0
     }
@@ -100,6 +112,11 @@ impl Elem for f32 {
         self == other || (self.is_nan() && other.is_nan())
     }
     const IS_INT: bool = false;
+    fn as_float(self) -> Option<f64> {
+        Some(self as f64)
+    }
+    const EPS: f64 = 1.1920928955078125e-7; // 2^-23
+    const TINY: f64 = 1.401298464324817e-45; // 2^-149
     fn one() -> Self {
         1.0
     }
@@ -170,6 +187,43 @@ impl<T: Elem> Grid<T> {
         }
         Grid { h: self.h, w: rhs.w, v }
     }
+    /// `got` is the product self . rhs (conforming shapes): exactly for the integer types; for the float types
+    /// ("float entries: rounding-bound oracle") every entry within the bound that ANY order of summation of the k
+    /// rounded products satisfies, |fl - exact| <= (k+1) * 2u * sum_k |a_ik| |b_kj| (SV.Props.C11Rounding.
+    /// dot_entry_rounding_binary64) - `got` and the sequential sum computed here both obey it, so they differ by
+    /// at most twice the bound.  Exactly representable sums (the dyadic fillings) still have to come out exact
+    /// up to that bound; a dropped / doubled / misplaced term is far outside it.
+    fn is_product(&self, rhs: &Self, got: &Self) -> bool {
+        let want = self.product(rhs);
+        if *got == want {
+            return true;
+        }
+        if T::IS_INT || got.h != want.h || got.w != want.w || got.v.len() != want.v.len() {
+            return false;
+        }
+        let k = self.w;
+        for i in 0..want.h {
+            for j in 0..want.w {
+                let (g, w) = (got.at(i, j), want.at(i, j));
+                if g.same(w) {
+                    continue;
+                }
+                let (Some(gf), Some(wf)) = (g.as_float(), w.as_float()) else { return false };
+                let mut scale = 0.0f64;
+                for l in 0..k {
+                    scale += (self.at(i, l).as_float().unwrap() * rhs.at(l, j).as_float().unwrap()).abs();
+                }
+                if !scale.is_finite() {
+                    continue; // overflow / NaN entries: the rounding bound says nothing
+                }
+                let tol = 2.0 * ((k + 1) as f64) * T::EPS * scale * 1.001 + 2.0 * ((k + 1) as f64) * T::TINY;
+                if !((gf - wf).abs() <= tol) {
+                    return false;
+                }
+            }
+        }
+        true
+    }
     fn transposed(&self) -> Self {
         let mut v = Vec::new();
         for j in 0..self.w {
@@ -196,7 +250,7 @@ fn dot_oracle<T: Elem>(a: &Grid<T>, b: &Grid<T>, r: &Result<Arr2D<T>, Arr2DError
     if conforming {
         let want = a.product(b);
         return match got {
-            Some(g) if g == want => Ok(()),
+            Some(g) if a.is_product(b, &g) => Ok(()),
             Some(g) => Err(format!("conforming product wrong: got {} want {}", g.show(), want.show())),
             None => Err("conforming shapes rejected".into()),
         };
@@ -279,7 +333,9 @@ fn run_ty<T: Elem>(cmd: &str, t: &mut Toks) -> Obs {
                             None
                         };
                         match want {
-                            Some(w) if w != g => Err(format!("operator result {} but the product is {}", g.show(), w.show())),
+                            Some(w) if w != g && !(a.w == b.h && a.is_product(&b, &g)) => {
+                                Err(format!("operator result {} but the product is {}", g.show(), w.show()))
+                            }
                             _ => Ok(()),
                         }
                     });
